@@ -55,17 +55,19 @@ impl SeqCase {
     pub fn nr(&self) -> std::ops::Range<usize> {
         self.new_range.0..self.new_range.1
     }
+    // a range written with start > end is an empty range (as for std's
+    // `Range::is_empty`); the helpers below treat it as such
     pub fn n(&self) -> usize {
-        self.old_range.1 - self.old_range.0
+        self.old_range.1.saturating_sub(self.old_range.0)
     }
     pub fn m(&self) -> usize {
-        self.new_range.1 - self.new_range.0
+        self.new_range.1.saturating_sub(self.new_range.0)
     }
     pub fn old_core(&self) -> &[u32] {
-        &self.old[self.or()]
+        &self.old[self.old_range.0..self.old_range.0 + self.n()]
     }
     pub fn new_core(&self) -> &[u32] {
-        &self.new[self.nr()]
+        &self.new[self.new_range.0..self.new_range.0 + self.m()]
     }
     pub fn full_ranges(&self) -> bool {
         self.old_range == (0, self.old.len()) && self.new_range == (0, self.new.len())
@@ -300,6 +302,19 @@ pub fn gen_seq_case(rng: &mut Rng, size: Size, alg: Option<Alg>) -> SeqCase {
 /// Generic shrink candidates for a sequence case (most aggressive first).
 pub fn shrink_seq(c: &SeqCase) -> Vec<SeqCase> {
     let mut out = Vec::new();
+    // reversed (empty) ranges: offer the plain empty range, then work on that
+    let mut norm = c.clone();
+    if norm.old_range.1 < norm.old_range.0 {
+        norm.old_range.1 = norm.old_range.0;
+    }
+    if norm.new_range.1 < norm.new_range.0 {
+        norm.new_range.1 = norm.new_range.0;
+    }
+    if norm != *c {
+        out.push(norm.clone());
+        out.extend(shrink_seq(&norm));
+        return out;
+    }
     // simplest lookup / hasher
     if c.index != IndexKind::Slice {
         let mut d = c.clone();
@@ -339,13 +354,17 @@ pub fn shrink_seq(c: &SeqCase) -> Vec<SeqCase> {
             out.push(d);
         }
     }
+    // for very large cases only coarse candidates are generated (every
+    // candidate is a full copy of the case)
+    let big = c.old.len() + c.new.len() > 4000;
+    let min_chunk = |len: usize| if big { (len / 8).max(1) } else { 1 };
     // remove the same relative chunk from both sides (keeps alignments)
     {
         let (olo, ohi) = c.old_range;
         let (nlo, nhi) = c.new_range;
         let len = (ohi - olo).min(nhi - nlo);
         let mut chunk = len / 2;
-        while chunk >= 1 {
+        while chunk >= min_chunk(len) {
             let mut start = 0;
             while start + chunk <= len {
                 for from_end in [false, true] {
@@ -371,7 +390,7 @@ pub fn shrink_seq(c: &SeqCase) -> Vec<SeqCase> {
         let (lo, hi) = if side == 0 { c.old_range } else { c.new_range };
         let len = hi - lo;
         let mut chunk = len / 2;
-        while chunk >= 1 {
+        while chunk >= min_chunk(len) {
             let mut start = lo;
             while start + chunk <= hi {
                 let mut d = c.clone();
@@ -387,6 +406,9 @@ pub fn shrink_seq(c: &SeqCase) -> Vec<SeqCase> {
             }
             chunk /= 2;
         }
+    }
+    if big {
+        return out;
     }
     // merge symbols towards a smaller alphabet
     let mut syms: Vec<u32> = c.old.iter().chain(c.new.iter()).copied().collect();
@@ -709,10 +731,12 @@ pub fn shrink_text(c: &TextCase) -> Vec<TextCase> {
             out.push(d);
         }
     }
+    // for very large texts only coarse candidates (each one is a full copy)
+    let big = ol.len() + nl.len() > 3000;
     for side in 0..2 {
         let lines = if side == 0 { &ol } else { &nl };
         let mut chunk = lines.len() / 2;
-        while chunk >= 1 {
+        while chunk >= if big { (lines.len() / 8).max(1) } else { 1 } {
             let mut start = 0;
             while start + chunk <= lines.len() {
                 let mut l = lines.clone();
@@ -728,6 +752,9 @@ pub fn shrink_text(c: &TextCase) -> Vec<TextCase> {
             }
             chunk /= 2;
         }
+    }
+    if big {
+        return out;
     }
     // simplify single lines: content -> "a"/"b", terminator -> "\n"
     for side in 0..2 {
@@ -950,4 +977,123 @@ pub fn gen_fragmented(rng: &mut Rng, blocks: usize) -> (Vec<u32>, Vec<u32>) {
         }
     }
     (old, new)
+}
+
+// ------------------------------------------------------------ threshold giants
+//
+// Rare, deliberately large inputs that sit just above typical internal limits
+// (16-bit ids, 2^24 table cells, 4096-item slides) while staying cheap to diff.
+
+/// More than 65536 distinct items overall although each side has fewer than
+/// 65536 items: `side` items that occur on one side only, then a long shared
+/// run.
+pub fn gen_many_distinct(rng: &mut Rng) -> (Vec<u32>, Vec<u32>) {
+    let side = 1200 + rng.usize(900);
+    // each side: side + shared <= 65535; distinct overall: 2*side + shared > 65536
+    let shared = 65_535 - side - rng.usize(40);
+    let mut old: Vec<u32> = (0..side as u32).map(|i| 1_000_000 + i).collect();
+    let mut new: Vec<u32> = (0..side as u32).map(|i| 2_000_000 + i).collect();
+    for i in 0..shared as u32 {
+        old.push(i);
+        new.push(i);
+    }
+    debug_assert!(old.len() <= 65_535 && new.len() <= 65_535);
+    (old, new)
+}
+
+/// A differing middle of more than 2^24 cells (4100 x 4100 and up) over
+/// disjoint alphabets between a short common prefix and suffix.
+pub fn gen_many_cells(rng: &mut Rng) -> (Vec<u32>, Vec<u32>) {
+    let n = 4097 + rng.usize(60);
+    let m = 4097 + rng.usize(60);
+    let mut old = vec![7u32, 8];
+    let mut new = vec![7u32, 8];
+    old.extend((0..n).map(|_| rng.below(30) as u32 + 100));
+    new.extend((0..m).map(|_| rng.below(30) as u32 + 500));
+    old.push(9);
+    new.push(9);
+    (old, new)
+}
+
+/// `old = B`, `new = B B` with more than 4096 items in B: the appended copy
+/// is an insertion that can slide up by a whole block.
+pub fn gen_big_slide(rng: &mut Rng) -> (Vec<u32>, Vec<u32>) {
+    let n = 4097 + rng.usize(900);
+    let b: Vec<u32> = (0..n).map(|_| rng.below(50) as u32).collect();
+    let mut new = b.clone();
+    new.extend_from_slice(&b);
+    (b, new)
+}
+
+/// Replaced block of `lines` lines with `words` words each, every line changed
+/// in one word (so the whole block is one Replace op whose sides hold more
+/// than 65536 words).
+pub fn gen_wordy_block(rng: &mut Rng) -> (String, String) {
+    let lines = 1250 + rng.usize(100);
+    let mut old = String::new();
+    let mut new = String::new();
+    for i in 0..lines {
+        let words = 27 + rng.usize(5);
+        let change_at = rng.usize(words);
+        for w in 0..words {
+            if w > 0 {
+                old.push(' ');
+                new.push(' ');
+            }
+            if w == change_at {
+                old.push_str(&format!("o{}", i));
+                new.push_str(&format!("n{}", i));
+            } else if w == 0 {
+                old.push_str(&format!("k{}", i));
+                new.push_str(&format!("k{}", i));
+            } else {
+                old.push('w');
+                new.push('w');
+            }
+        }
+        old.push('\n');
+        new.push('\n');
+    }
+    (old, new)
+}
+
+/// A replaced block that does not start at line 0 and contains a line with
+/// more than 32 separate changed words.
+pub fn gen_zebra_block(rng: &mut Rng) -> (String, String) {
+    let mut old = String::from("head line\n");
+    let mut new = String::from("head line\n");
+    if rng.chance(1, 2) {
+        old.push_str("second head\n");
+        new.push_str("second head\n");
+    }
+    let pairs = 33 + rng.usize(12);
+    let term = if rng.chance(1, 3) { "\r\n" } else { "\n" };
+    for i in 0..pairs {
+        old.push_str(&format!("a{} keep ", i));
+        new.push_str(&format!("b{} keep ", i));
+    }
+    old.push_str(term);
+    new.push_str(term);
+    let extra = 1 + rng.usize(2);
+    for i in 0..extra {
+        old.push_str(&format!("tail {} one{}", i, term));
+        new.push_str(&format!("tail {} two{}", i, term));
+    }
+    if rng.chance(1, 2) {
+        old.push_str("end\n");
+        new.push_str("end\n");
+    }
+    (old, new)
+}
+
+
+/// Rewrites an empty range of the case as `start..end` with `end < start`
+/// (still an empty range) with some probability.
+pub fn maybe_reverse_empty(rng: &mut Rng, seq: &mut SeqCase) {
+    if seq.old_range.0 == seq.old_range.1 && seq.old_range.0 > 0 && rng.chance(1, 3) {
+        seq.old_range.1 = rng.usize(seq.old_range.0);
+    }
+    if seq.new_range.0 == seq.new_range.1 && seq.new_range.0 > 0 && rng.chance(1, 3) {
+        seq.new_range.1 = rng.usize(seq.new_range.0);
+    }
 }
